@@ -1,4 +1,327 @@
 /- Helper lemmas for C12 (independence of the engine's open choices). -/
 import KB.Lemmas.Scan
 namespace KB
+open Generated
+
+/-! ### unlimited iteration: where `Quirks` can and cannot enter -/
+
+/-- An unlimited iteration that is not descending ignores the quirks altogether. -/
+theorem iterate_zero_of_not_gt (q1 q2 : Quirks) (s : Store) {a b : Bytes} (h : cmp a b ≠ .gt) :
+    iterate q1 s a b 0 = iterate q2 s a b 0 := by
+  simp [iterate, applyLimit, h]
+
+/-- An unlimited iteration depends on the quirks only through `revFirstUnchecked`. -/
+theorem iterate_zero_of_rev {q1 q2 : Quirks} (hr : q1.revFirstUnchecked = q2.revFirstUnchecked)
+    (s : Store) (a b : Bytes) : iterate q1 s a b 0 = iterate q2 s a b 0 := by
+  simp [iterate, applyLimit, iterDesc, hr]
+
+theorem belowFloor_congr {c1 c2 : Cfg} (hp : c1.pfx = c2.pfx) (st : Store) (rev : Nat) :
+    belowFloor c1 st rev = belowFloor c2 st rev := by
+  simp [belowFloor, floorOf, compactKeyOf, hp]
+
+theorem scanPartitions_congr {c1 c2 : Cfg} (hs : c1.splits = c2.splits) (a b : Bytes) :
+    scanPartitions c1 a b = scanPartitions c2 a b := by
+  simp [scanPartitions, hs]
+
+theorem scanLimited_congr {c1 c2 : Cfg} (hp : c1.pfx = c2.pfx) (ht : c1.q.supportTTL = c2.q.supportTTL)
+    {st : Store} {a b : Bytes} (hit : iterate c1.q st a b 0 = iterate c2.q st a b 0) (rev lim : Nat) :
+    scanLimited c1 st a b rev lim = scanLimited c2 st a b rev lim := by
+  simp only [scanLimited, belowFloor_congr hp, hit, ht]
+
+/-- one partition's worker output, as in `scanParts` -/
+def partWorker (q : Quirks) (st : Store) (rev : Nat) (p : Bytes × Bytes) : Option (List KV) :=
+  match decodeRecs (iterate q st p.1 p.2 0) with
+  | none => none
+  | some recs =>
+    let acts := workerActs { R := rev, supportTTL := q.supportTTL } recs
+    if hasPanic acts then none else some (emitsOf acts)
+
+theorem scanParts_unfold (c : Cfg) (st : Store) (a b : Bytes) (rev : Nat) :
+    scanParts c st a b rev =
+      if belowFloor c st rev then .error .belowFloor else
+      match scanPartitions c a b with
+      | none => .panic
+      | some parts =>
+        if (parts.map (partWorker c.q st rev)).any Option.isNone then .panic
+        else .ok ((parts.map (partWorker c.q st rev)).filterMap id) := rfl
+
+theorem partWorker_congr {q1 q2 : Quirks} (ht : q1.supportTTL = q2.supportTTL) {st : Store} {p : Bytes × Bytes}
+    (hit : iterate q1 st p.1 p.2 0 = iterate q2 st p.1 p.2 0) (rev : Nat) :
+    partWorker q1 st rev p = partWorker q2 st rev p := by
+  simp only [partWorker, hit, ht]
+
+theorem scanParts_congr {c1 c2 : Cfg} (hp : c1.pfx = c2.pfx) (hs : c1.splits = c2.splits)
+    (ht : c1.q.supportTTL = c2.q.supportTTL) {st : Store} {a b : Bytes}
+    (hit : ∀ parts, scanPartitions c1 a b = some parts →
+      ∀ p ∈ parts, iterate c1.q st p.1 p.2 0 = iterate c2.q st p.1 p.2 0) (rev : Nat) :
+    scanParts c1 st a b rev = scanParts c2 st a b rev := by
+  rw [scanParts_unfold, scanParts_unfold, belowFloor_congr hp, ← scanPartitions_congr hs]
+  split
+  · rfl
+  · cases hsp : scanPartitions c1 a b with
+    | none => rfl
+    | some parts =>
+      have hm : parts.map (partWorker c1.q st rev) = parts.map (partWorker c2.q st rev) :=
+        List.map_congr_left (fun p hp' => partWorker_congr ht (hit parts hsp p hp') rev)
+      simp only [hm]
+
+theorem doList_congr {c1 c2 : Cfg} {s : BState} {a b : Bytes} {R n : Nat}
+    (h1 : cmp a b = .lt → ∀ rev lim, scanLimited c1 s.store (encode a 0) (encode b 0) rev lim =
+      scanLimited c2 s.store (encode a 0) (encode b 0) rev lim)
+    (h2 : cmp a b = .lt → ∀ rev, scanParts c1 s.store (encode a 0) (encode b 0) rev =
+      scanParts c2 s.store (encode a 0) (encode b 0) rev) :
+    doList c1 s a b R n = doList c2 s a b R n := by
+  by_cases hab : cmp a b = .lt
+  · simp only [doList, h1 hab, h2 hab]
+  · simp [doList, hab]
+
+/-- Range reads agree when the two engines agree on `revFirstUnchecked` (any store, any bounds). -/
+theorem doList_indep_of_rev {c1 c2 : Cfg} (hp : c1.pfx = c2.pfx) (hs : c1.splits = c2.splits)
+    (ht : c1.q.supportTTL = c2.q.supportTTL) (hr : c1.q.revFirstUnchecked = c2.q.revFirstUnchecked)
+    (s : BState) (a b : Bytes) (R n : Nat) : doList c1 s a b R n = doList c2 s a b R n :=
+  doList_congr (fun _ => scanLimited_congr hp ht (iterate_zero_of_rev hr _ _ _))
+    (fun _ => scanParts_congr hp hs ht (fun _ _ _ _ => iterate_zero_of_rev hr _ _ _))
+
+/-- Range reads agree, whatever the engines' choices, when every iteration is ascending: bounds
+over the alphabet and no (adjusted) partition runs backwards. -/
+theorem doList_indep_of_ascending {c1 c2 : Cfg} (hp : c1.pfx = c2.pfx) (hs : c1.splits = c2.splits)
+    (ht : c1.q.supportTTL = c2.q.supportTTL) (s : BState) {a b : Bytes} (ha : Alphabet a) (hb : Alphabet b)
+    (hasc : ∀ parts, scanPartitions c1 (encode a 0) (encode b 0) = some parts → ∀ p ∈ parts, cmp p.1 p.2 ≠ .gt)
+    (R n : Nat) : doList c1 s a b R n = doList c2 s a b R n := by
+  refine doList_congr (fun hab => ?_) (fun _ => ?_)
+  · have hne : a ≠ b := by intro e; rw [e] at hab; simp at hab
+    have hlt : cmp (encode a 0) (encode b 0) = .lt := by
+      rw [encode_cmp ha hb (by decide) (by decide)]; simp [hne, hab]
+    exact scanLimited_congr hp ht (iterate_zero_of_not_gt _ _ _ (by rw [hlt]; decide))
+  · exact scanParts_congr hp hs ht (fun parts hsp p hpm => iterate_zero_of_not_gt _ _ _ (hasc parts hsp p hpm))
+
+/-- ... in particular on an engine with a single partition. -/
+theorem doList_indep_single {c1 c2 : Cfg} (hp : c1.pfx = c2.pfx) (hs : c1.splits = c2.splits)
+    (ht : c1.q.supportTTL = c2.q.supportTTL) (hsplit : c1.splits = []) (s : BState) {a b : Bytes}
+    (ha : Alphabet a) (hb : Alphabet b) (R n : Nat) : doList c1 s a b R n = doList c2 s a b R n := by
+  by_cases hab : cmp a b = .lt
+  · refine doList_indep_of_ascending hp hs ht s ha hb ?_ R n
+    intro parts hsp p hpm
+    rw [scanPartitions_single hsplit] at hsp
+    cases hsp
+    have hne : a ≠ b := by intro e; rw [e] at hab; simp at hab
+    have hlt : cmp (encode a 0) (encode b 0) = .lt := by
+      rw [encode_cmp ha hb (by decide) (by decide)]; simp [hne, hab]
+    simp only [List.mem_singleton] at hpm
+    subst hpm
+    rw [hlt]; decide
+  · simp [doList, hab]
+
+/-- the shape of the C12 statement for range reads, on equal results -/
+theorem listRes_match_self (x : ScanRes ListRes) :
+    (match x, x with
+     | .ok r1, .ok r2 => r1.hdr = r2.hdr ∧ r1.more = r2.more ∧ r1.kvs = r2.kvs
+     | .error e1, .error e2 => e1 = e2
+     | .panic, .panic => True
+     | _, _ => False) := by
+  cases x <;> simp
+
+/-! ### point reads on a well-formed store -/
+
+theorem bget_encodeStore_indep (c1 c2 : Cfg) {recs : List Rec} (hs : SortedRecs recs)
+    (hk : ∀ r ∈ recs, Alphabet r.key ∧ r.rev < 2 ^ 64) (k : Bytes) (hka : Alphabet k)
+    (R : Nat) (hR : R < 2 ^ 64) :
+    bget c1 (encodeStore recs) k R = bget c2 (encodeStore recs) k R := by
+  simp only [bget, getInternal_encodeStore c1 hs hk k hka R hR, getInternal_encodeStore c2 hs hk k hka R hR]
+
+theorem doGet_encodeStore_indep (c1 c2 : Cfg) (s : BState) {recs : List Rec} (hst : s.store = encodeStore recs)
+    (hs : SortedRecs recs) (hk : ∀ r ∈ recs, Alphabet r.key ∧ r.rev < 2 ^ 64) (k : Bytes) (hka : Alphabet k)
+    (R : Nat) (hR : R < 2 ^ 64) : doGet c1 s k R = doGet c2 s k R := by
+  simp only [doGet, hst, bget_encodeStore_indep c1 c2 hs hk k hka R hR]
+
+theorem sequence_store (s : BState) (w : WEvent) : (sequence s w).store = s.store := by
+  unfold sequence; split <;> rfl
+
+/-! ### commits: same class, same store -/
+
+/-- Two engine-level commit results that agree up to the shape of the conflict error. -/
+inductive ApplySame : Except CommitErr Store → Except CommitErr Store → Prop
+  | ok (s : Store) : ApplySame (.ok s) (.ok s)
+  | conflict (i : Option Nat) (v : Option Bytes) (i' : Option Nat) (v' : Option Bytes) :
+      ApplySame (.error (.conflict i v)) (.error (.conflict i' v'))
+
+theorem applyOp_same {q1 q2 : Quirks} (h1 : q1.casMissingNotFound = false) (h2 : q2.casMissingNotFound = false)
+    (s : Store) (idx : Nat) (op : BOp) : ApplySame (applyOp q1 s idx op) (applyOp q2 s idx op) := by
+  cases op with
+  | pine k v =>
+    simp only [applyOp]
+    cases s.get k with
+    | none => exact .ok _
+    | some old => exact .conflict _ _ _ _
+  | cas k new old =>
+    simp only [applyOp, h1, h2]
+    cases s.get k with
+    | none => exact .conflict _ _ _ _
+    | some cur =>
+      by_cases hc : cur = old
+      · simp only [hc, if_true]; exact .ok _
+      · simp only [hc, if_false]; exact .conflict _ _ _ _
+  | put k v => exact .ok _
+  | del k => exact .ok _
+  | delcur k v =>
+    simp only [applyOp]
+    cases s.get k with
+    | none => exact .conflict _ _ _ _
+    | some cur =>
+      by_cases hc : cur = v
+      · simp only [hc, if_true]; exact .ok _
+      · simp only [hc, if_false]; exact .conflict _ _ _ _
+
+theorem applyOps_same {q1 q2 : Quirks} (h1 : q1.casMissingNotFound = false) (h2 : q2.casMissingNotFound = false)
+    (s : Store) (idx : Nat) (ops : List BOp) : ApplySame (applyOps q1 s idx ops) (applyOps q2 s idx ops) := by
+  induction ops generalizing s idx with
+  | nil => exact .ok _
+  | cons op ops ih =>
+    simp only [applyOps]
+    have h := applyOp_same h1 h2 s idx op
+    generalize applyOp q1 s idx op = x at h
+    generalize applyOp q2 s idx op = y at h
+    cases h with
+    | ok s' => exact ih s' (idx + 1)
+    | conflict i v i' v' => exact .conflict _ _ _ _
+
+/-- Two backend-level commit results on store `st`: same class, same resulting store; a failed
+condition leaves the store alone. -/
+inductive CommitSame (st : Store) : CommitRes × Store → CommitRes × Store → Prop
+  | ok (st' : Store) : CommitSame st (.ok, st') (.ok, st')
+  | conflict (i : Option Nat) (v : Option Bytes) (i' : Option Nat) (v' : Option Bytes) :
+      CommitSame st (.conflict i v, st) (.conflict i' v', st)
+  | uncertain (st' : Store) : CommitSame st (.uncertain, st') (.uncertain, st')
+  | err (st' : Store) : CommitSame st (.err, st') (.err, st')
+
+theorem doCommit_same {c1 c2 : Cfg} (h1 : c1.q.casMissingNotFound = false) (h2 : c2.q.casMissingNotFound = false)
+    (st : Store) (ops : List BOp) (f : Fault) : CommitSame st (doCommit c1 st ops f) (doCommit c2 st ops f) := by
+  have h := applyOps_same h1 h2 st 0 ops
+  simp only [doCommit, commit]
+  generalize applyOps c1.q st 0 ops = x at h
+  generalize applyOps c2.q st 0 ops = y at h
+  cases h with
+  | ok s' => cases f <;> constructor
+  | conflict i v i' v' => exact .conflict _ _ _ _
+
+/-! ### the creator -/
+
+/-- results of `creatorCreate` that agree up to the shape of the conflict -/
+inductive CreateSame (st : Store) : CommitRes × Store × List Fault → CommitRes × Store × List Fault → Prop
+  | ok (st' : Store) (fs : List Fault) : CreateSame st (.ok, st', fs) (.ok, st', fs)
+  | conflict (i : Option Nat) (v : Option Bytes) (i' : Option Nat) (v' : Option Bytes) (fs : List Fault) :
+      CreateSame st (.conflict i v, st, fs) (.conflict i' v', st, fs)
+  | uncertain (st' : Store) (fs : List Fault) : CreateSame st (.uncertain, st', fs) (.uncertain, st', fs)
+  | err (st' : Store) (fs : List Fault) : CreateSame st (.err, st', fs) (.err, st', fs)
+
+theorem CommitSame.toCreate {st : Store} {x y : CommitRes × Store} (h : CommitSame st x y) (fs : List Fault) :
+    CreateSame st (x.1, x.2, fs) (y.1, y.2, fs) := by
+  cases h <;> constructor
+
+/-- the first batch of the creator when the index record exists: the `pine` at position 0 fails
+and carries the stored index value -/
+theorem doCommit_pine_some (c : Cfg) {st : Store} {ik old : Bytes} (h : st.get ik = some old)
+    (v k2 v2 : Bytes) (f : Fault) :
+    doCommit c st [BOp.pine ik v, BOp.put k2 v2] f = (.conflict (some c.q.idxOffset) (some old), st) := by
+  simp [doCommit, commit, applyOps, applyOp, h]
+
+/-- ... and when it does not exist: the batch is applied, whatever the engine -/
+theorem doCommit_pine_none (c : Cfg) {st : Store} {ik : Bytes} (h : st.get ik = none)
+    (v k2 v2 : Bytes) (f : Fault) :
+    doCommit c st [BOp.pine ik v, BOp.put k2 v2] f =
+      (match f with
+       | .none => (.ok, (st.put ik v).put k2 v2)
+       | .err => (.err, st)
+       | .uncApplied => (.uncertain, (st.put ik v).put k2 v2)
+       | .uncNotApplied => (.uncertain, st)) := by
+  cases f <;> simp [doCommit, commit, applyOps, applyOp, h]
+
+theorem creatorCreate_same {c1 c2 : Cfg} (h1 : c1.q.casMissingNotFound = false)
+    (h2 : c2.q.casMissingNotFound = false) (st : Store) (key val : Bytes) (rev : Nat) (fs : List Fault) :
+    CreateSame st (creatorCreate c1 st key val rev fs) (creatorCreate c2 st key val rev fs) := by
+  cases hg : st.get (idxKey key) with
+  | none =>
+    unfold creatorCreate
+    simp only [doCommit_pine_none _ hg]
+    cases (nextFault fs).1 <;> simp only [] <;> constructor
+  | some old =>
+    unfold creatorCreate
+    simp only [doCommit_pine_some _ hg, hg, Option.getD_some, ite_self]
+    cases hp : parseRevision old with
+    | none => exact .err _ _
+    | some pr =>
+      obtain ⟨prevRev, tomb⟩ := pr
+      simp only []
+      split
+      · exact (doCommit_same h1 h2 st _ _).toCreate _
+      · exact .conflict _ _ _ _ _
+
+/-! ### writes -/
+
+theorem doCreate_indep {c1 c2 : Cfg} (h1 : c1.q.casMissingNotFound = false)
+    (h2 : c2.q.casMissingNotFound = false) (s : BState) (key val : Bytes) (fs : List Fault) :
+    doCreate c1 s key val fs = doCreate c2 s key val fs := by
+  unfold doCreate
+  simp only []
+  have h := creatorCreate_same h1 h2 s.store key val (s.dealt + 1) fs
+  generalize creatorCreate c1 s.store key val (s.dealt + 1) fs = x at h ⊢
+  generalize creatorCreate c2 s.store key val (s.dealt + 1) fs = y at h ⊢
+  cases h <;> rfl
+
+theorem conflict_beq_ok (i : Option Nat) (v : Option Bytes) : (CommitRes.conflict i v == CommitRes.ok) = false := by
+  simp
+
+theorem conflict_beq_uncertain (i : Option Nat) (v : Option Bytes) :
+    (CommitRes.conflict i v == CommitRes.uncertain) = false := by
+  simp
+
+theorem doUpdate_indep {c1 c2 : Cfg} (h1 : c1.q.casMissingNotFound = false)
+    (h2 : c2.q.casMissingNotFound = false) (s : BState)
+    (key val : Bytes) (hb : bget c1 s.store key 0 = bget c2 s.store key 0)
+    (exp : Nat) (fs : List Fault) :
+    doUpdate c1 s key val exp fs = doUpdate c2 s key val exp fs := by
+  unfold doUpdate
+  simp only []
+  split
+  · have h := creatorCreate_same h1 h2 s.store key val (s.dealt + 1) fs
+    generalize creatorCreate c1 s.store key val (s.dealt + 1) fs = x at h ⊢
+    generalize creatorCreate c2 s.store key val (s.dealt + 1) fs = y at h ⊢
+    cases h with
+    | conflict i v i' v' fs' => simp only [sequence_store, hb, conflict_beq_ok, conflict_beq_uncertain]
+    | _ => rfl
+  · split
+    · rfl
+    · have h := doCommit_same h1 h2 s.store
+        [BOp.cas (idxKey key) (be8 (s.dealt + 1)) (be8 exp), BOp.put (encode key (s.dealt + 1)) val] (nextFault fs).1
+      generalize doCommit c1 s.store _ _ = x at h ⊢
+      generalize doCommit c2 s.store _ _ = y at h ⊢
+      cases h with
+      | conflict i v i' v' => simp only [sequence_store, hb, conflict_beq_ok, conflict_beq_uncertain]
+      | _ => rfl
+
+theorem doDelete_indep {c1 c2 : Cfg} (h1 : c1.q.casMissingNotFound = false)
+    (h2 : c2.q.casMissingNotFound = false) (s : BState)
+    (key : Bytes) (hb : bget c1 s.store key 0 = bget c2 s.store key 0)
+    (exp : Nat) (fs : List Fault) :
+    doDelete c1 s key exp fs = doDelete c2 s key exp fs := by
+  unfold doDelete
+  simp only [hb]
+  cases bget c2 s.store key 0 with
+  | notFound m => rfl
+  | found oldVal modRev =>
+    simp only []
+    split
+    · rfl
+    · split
+      · simp only [sequence_store, hb]
+      · split
+        · rfl
+        · have h := doCommit_same h1 h2 s.store
+            [BOp.cas (idxKey key) (be8 (s.dealt + 1) ++ [0]) (be8 modRev), BOp.put (encode key (s.dealt + 1)) tombstone] (nextFault fs).1
+          generalize doCommit c1 s.store _ _ = x at h ⊢
+          generalize doCommit c2 s.store _ _ = y at h ⊢
+          cases h with
+          | conflict i v i' v' => simp only [sequence_store, hb, conflict_beq_ok, conflict_beq_uncertain]
+          | _ => rfl
+
 end KB
